@@ -41,6 +41,11 @@ func (p *FloatingIPPlugin) ensureIPAMConf(lastConf *string, newConf string) (boo
 	if err := json.Unmarshal([]byte(newConf), &conf); err != nil {
 		return false, fmt.Errorf("failed to unmarshal configmap val %s to floatingip config: %v", newConf, err)
 	}
+	for i := range conf {
+		if conf[i] == nil {
+			return false, fmt.Errorf("floatingip config %s has a null pool at index %d", newConf, i)
+		}
+	}
 	if err := p.ipam.ConfigurePool(conf); err != nil {
 		return false, fmt.Errorf("failed to configure pool: %v", err)
 	}
@@ -65,6 +70,10 @@ func (p *FloatingIPPlugin) allocateInSubnetWithKey(oldK, newK, subnet string, at
 	fip, err := p.ipam.First(newK)
 	if err != nil {
 		return err
+	}
+	if fip == nil {
+		// released or dropped by a configuration reload in the meantime
+		return fmt.Errorf("ip allocated to %s from %s during %s is gone", newK, oldK, when)
 	}
 	glog.Infof("allocated ip %s to %s from %s during %s", fip.IPInfo.IP.String(), newK, oldK, when)
 	return nil
